@@ -44,7 +44,8 @@ fn spec_lines(text: &str) -> Vec<String> {
 fn stress(seed: u64, millis: u64) {
     let mut rng = seed.wrapping_mul(0x9E3779B97F4A7C15) | 1; let mut next = move || { rng ^= rng << 13; rng ^= rng >> 7; rng ^= rng << 17; rng };
     let texts: Vec<String> = vec!["".into(), "a".into(), "a\nb\nc".into(), "a\r\n\nb\n".into(), "\u{e9}\rb".into(),
-        (0..40).map(|i| format!("line{}", i)).collect::<Vec<_>>().join("\n"), (0..25).map(|i| format!("{}{}", "x".repeat(i % 7), i)).collect::<Vec<_>>().join("\r\n") + "\r"];
+        (0..40).map(|i| format!("line{}", i)).collect::<Vec<_>>().join("\n"), (0..25).map(|i| format!("{}{}", "x".repeat(i % 7), i)).collect::<Vec<_>>().join("\r\n") + "\r",
+        (0..700).map(|i| format!("var line{} = {};", i, i * 7)).collect::<Vec<_>>().join("\n")];
     let start = std::time::Instant::now(); let mut rounds = 0u64; let mut calls = 0u64; let mut bad: Vec<String> = vec![];
     while (start.elapsed().as_millis() as u64) < millis && bad.len() < 5 {
         let text = texts[(next() % texts.len() as u64) as usize].clone(); let want = Arc::new(spec_lines(&text));
